@@ -235,9 +235,18 @@ def _check(prop, cfg, tier, seed, scratch, t0):
     vio_paths = []
     if violations:
         rc = 1
+        # a failing input found by a bounded stand-in is attached to verifier-reported violations that have none
+        with_input = [v for v in violations if v.get('input')]
+        if with_input:
+            for v in violations:
+                if not v.get('input'):
+                    w = with_input[0]
+                    v['input'] = w['input']; v['replayed'] = w.get('replayed'); v['replay_bin'] = w.get('replay_bin'); v['replay_args'] = w.get('replay_args')
+                    v['input_note'] = 'failing input found by the bounded search for this property on the same tree (not produced by the verifier)'
         for n, v in enumerate(violations, 1):
             payload = {'property': prop, 'obligation': v.get('ob'), 'function': v.get('fn'), 'message': v.get('message'), 'where': v.get('where'),
                        'verifier_output': v.get('rendered'), 'failing_input': v.get('input'), 'replayed': v.get('replayed'),
+                       'replay_bin': v.get('replay_bin'), 'replay_args': v.get('replay_args'),
                        'note': 'Verus gives no counterexample; the obligation was discharged on the unchanged tree and fails now' if not v.get('input') else 'failing input found by the bounded stand-in and replayed on the real code'}
             pth = write_replay(prop, n, payload)
             vio_paths.append(pth)
